@@ -236,7 +236,7 @@ func Selection(t *rapid.T, ts *TypeSpec, label string, plain bool) ([]string, bo
 
 	if !plain {
 		if rapid.IntRange(0, 3).Draw(t, label+"-unk") == 0 {
-			sel = append(sel, rapid.SampledFrom([]string{"nope", "id", "type", "", "x"}).Draw(t, label+"-unkname"))
+			sel = append(sel, rapid.SampledFrom([]string{"nope", "id", "type", "", "x", "full name", "\u00e9", "a+b", "a,b", "%41", "a&b"}).Draw(t, label+"-unkname"))
 		}
 
 		if len(sel) > 0 && rapid.IntRange(0, 4).Draw(t, label+"-dup") == 0 {
